@@ -110,7 +110,11 @@ class VLoop(asyncio.SelectorEventLoop):
                       key=lambda h: (self.deadline(h), self.vseq.get(id(h), -1)))
 
     def fire_handle(self, h):
-        self._scheduled.remove(h)
+        # by identity: TimerHandle.__eq__ compares (when, callback, args), two equal timers are different handles
+        for i, x in enumerate(self._scheduled):
+            if x is h:
+                del self._scheduled[i]
+                break
         heapq.heapify(self._scheduled)
         h._scheduled = False
         self._ready.append(h)
